@@ -17,6 +17,7 @@ import (
 	"google.golang.org/grpc/codes"
 	"google.golang.org/grpc/status"
 	"google.golang.org/protobuf/encoding/protodelim"
+	"google.golang.org/protobuf/encoding/protowire"
 	"google.golang.org/protobuf/encoding/protojson"
 	"google.golang.org/protobuf/proto"
 	"google.golang.org/protobuf/types/dynamicpb"
@@ -444,6 +445,56 @@ func runC09(c *Ctx) {
 				c.SpecFail("request", in, fmt.Sprint("panic: ", pn), "a response", "C09/panic/grpc-compressed-reply/"+c09PanicKey(pn), "a request panics the mux")
 			} else if st := strings.Trim(rec.Header().Get("Grpc-Status")+rec.Result().Trailer.Get("Grpc-Status"), "0"); rec.Code != 200 || st != "" {
 				c.SpecFail("request", in, fmt.Sprintf("%d grpc-status %q", rec.Code, st), "OK", "C09/valid-refused/grpc-compressed-reply", "a valid compressed call fails")
+			}
+		}
+	}
+	// directed: every boundary length prefix on the transcoded client-stream routes, and every key of the
+	// codec table (including the HttpBody pseudo codec's) as the Accept of a request that fails
+	{
+		var bodies [][]byte
+		for _, v := range []uint64{0, 1, 127, 128, 1 << 31, 1<<32 - 1, 1 << 32, 1<<63 - 1, 1 << 63, 1<<63 + 1, 1<<64 - 1} {
+			p := protowire.AppendVarint(nil, v)
+			bodies = append(bodies, append(append([]byte{}, p...), "abc"...), p)
+			var buf bytes.Buffer
+			protodelim.MarshalTo(&buf, validMsg()) //nolint
+			bodies = append(bodies, append(buf.Bytes(), p...))
+		}
+		var reqs []c09Req
+		for _, b := range bodies {
+			for _, t := range []string{"/v1/up", "/" + fxPkg + ".Svc/Up", "/" + fxPkg + ".Svc/Chat"} {
+				for _, ct := range []string{"application/protobuf", "application/octet-stream"} {
+					reqs = append(reqs, c09Req{method: "POST", target: t, hdr: [][2]string{{"Content-Type", ct}}, body: b, entry: "transcoding", options: "directed-prefix", eofd: len(reqs)%2 == 0})
+				}
+			}
+		}
+		for _, acc := range []string{"google.api.HttpBody", "application/x-verif", "application/octet-stream", "application/protobuf", "google.api.HttpBody;q=1, application/json;q=0.1"} {
+			for _, t := range []string{"/v1/nope", "/v1/up", "/" + fxPkg + ".Svc/Post"} {
+				reqs = append(reqs, c09Req{method: "POST", target: t, hdr: [][2]string{{"Content-Type", "application/json"}, {"Accept", acc}}, body: []byte(`{"i32":"not a number"`), entry: "transcoding", options: "directed-accept"})
+				reqs = append(reqs, c09Req{method: "GET", target: t + "?i32=x", hdr: [][2]string{{"Accept", acc}}, entry: "transcoding", options: "directed-accept"})
+			}
+		}
+		for _, q := range reqs {
+			for _, mux := range []http.Handler{fxA.Mux, fxB.Mux} {
+				r := httptest.NewRequest(q.method, q.target, &schedReader{data: append([]byte(nil), q.body...), eofWithData: q.eofd})
+				for _, h := range q.hdr {
+					r.Header.Set(h[0], h[1])
+				}
+				r.ContentLength = -1
+				done := make(chan interface{}, 1)
+				var rec *httptest.ResponseRecorder
+				go func() { var pn interface{}; rec, pn = serveOn(mux, r); done <- pn }()
+				c.Eval("request", q.String(), true)
+				c.Class("directed:" + q.options)
+				select {
+				case pn := <-done:
+					if pn != nil {
+						c.SpecFail("request", q.String(), fmt.Sprint("panic: ", pn), "a response", "C09/panic/"+q.options+"/"+c09PanicKey(pn), "a request panics the mux")
+					} else if rec.Code < 100 || rec.Code > 599 {
+						c.SpecFail("request", q.String(), fmt.Sprint(rec.Code), "a status line", "C09/status-line/"+q.options, "no well-formed status")
+					}
+				case <-time.After(5 * time.Second):
+					c.SpecFail("request", q.String(), "still running after 5 s", "a response", "C09/hang/"+q.options, "a request hangs the mux")
+				}
 			}
 		}
 	}
